@@ -194,6 +194,8 @@ pub struct Ctx {
     pub verif_dir: PathBuf,
     pub known: Known,
     pub threads: usize,
+    /// stack size of the worker threads cases run on
+    pub stack: usize,
 }
 
 #[derive(Debug, Clone, Serialize, Deserialize)]
@@ -435,6 +437,7 @@ pub fn par_shards(n: usize, stack: usize, work: impl Fn(usize) -> Report + Sync)
                             r
                         }
                     };
+                    crate::crumb::clear();
                     out.lock().unwrap().merge(r);
                 })
                 .unwrap();
@@ -473,7 +476,7 @@ where
 {
     let shards = ctx.threads.max(1).min(cases.max(1) as usize);
     let per = cases.div_ceil(shards as u64);
-    par_shards(shards, DEFAULT_STACK, |shard| {
+    par_shards(shards, ctx.stack, |shard| {
         let mut report = Report::default();
         let config = Config {
             cases: per as u32,
@@ -544,7 +547,7 @@ where
     C: Serialize + Sync,
 {
     let shards = ctx.threads.max(1).min(cases.len().max(1));
-    par_shards(shards, DEFAULT_STACK, |shard| {
+    par_shards(shards, ctx.stack, |shard| {
         let mut report = Report::default();
         let mut i = shard;
         while i < cases.len() {
